@@ -70,7 +70,7 @@ def gen_case(seed: int, prop: str, tier: str) -> dict:
         else:
             ops.append(["flip"])
     cfg = {"seq0": rng.choice([1, 3, 7, 1000, 65000]), "max_tables": rng.choice([1, 2, 4, 12]), "gaps": rng.random() < 0.3,
-           "scatter_obj": rng.random() < 0.4, "free_obj": rng.random() < 0.5,
+           "scatter_obj": rng.random() < 0.4, "free_obj": rng.random() < 0.5, "second_objtable": rng.random() < 0.3,
            "stale_version": rng.choice([0x400, 0x400, 0x300, 0]), "stale_sig": rng.choice([W.SIG_HEADER, W.SIG_HEADER, 0, 0xDEADBEEF]),
            "store_seed": rng.getrandbits(40)}
     return {"engine": "storesim", "prop": prop, "seed": seed, "cfg": cfg, "ops": ops, "cuts": rng.choice(["all", "all", "final", "sample"]),
@@ -192,10 +192,13 @@ def run_case(case: dict) -> RunResult:
     res.keys, res.nontrivial_keys = keys, ntkeys
     res.probes["store.tables_%d" % min(len(st.tables), 12)] = 1
     res.probes["store.cuts_" + case["cuts"]] = 1
-    if any(e[0] == W.OBJ_FILE for e in st.obj):
+    allobj = st.obj + (st.obj2 or [])
+    if any(e[0] == W.OBJ_FILE for e in allobj):
         res.probes["store.file_objects"] = 1
-    if len([e for e in st.obj if e[0] == W.OBJ_KEYTABLE and e[3]]) > len(st.tables):
+    if len([e for e in allobj if e[0] == W.OBJ_KEYTABLE and e[3]]) > len(st.tables):
         res.probes["store.two_versions_of_a_table_registered"] = 1
+    if st.obj2 is not None:
+        res.probes["store.additional_object_table"] = 1
     if case["cfg"]["stale_version"] != 0x400 or case["cfg"]["stale_sig"] != W.SIG_HEADER:
         res.probes["store.stale_header_slot_invalid"] = 1
     for t in _types(st.tree):
@@ -239,3 +242,9 @@ def evidence_extra():
 
 
 SHRINK_LISTS = ["ops"]
+
+
+def warm_process():
+    from hvsim.engines import monitor as _m
+
+    _m.warm()
